@@ -664,10 +664,19 @@ func (fr *Frame) binop(st *State, op token.Token, a, b Val, rt types.Type) Val {
 			return wrap(sx("*", x, y))
 		case token.QUO:
 			fr.safety(st, "div-zero", tNot(tEq(y, "0")), "integer division")
-			return bl(sx("godiv", x, y))
+			q := vc.define("quo", "Int", sx("godiv", x, y))
+			// linear facts about truncated division (the solvers do not derive them)
+			vc.assume(st, tImp(tAnd(tLe("0", x), tLt("0", y)), tAnd(tLe("0", q), tLe(q, x), tImp(tLe(y, x), tLe("1", q)), tImp(tLt(x, y), tEq(q, "0")))))
+			return bl(q)
 		case token.REM:
 			fr.safety(st, "div-zero", tNot(tEq(y, "0")), "integer remainder")
-			return bl(sx("gorem", x, y))
+			r := vc.define("rem", "Int", sx("gorem", x, y))
+			vc.assume(st, tAnd(
+				tImp(tAnd(tLe("0", x), tLt("0", y)), tAnd(tLe("0", r), tLt(r, y), tLe(r, x))),
+				tImp(tAnd(tLe("0", x), tLt(y, "0")), tAnd(tLe("0", r), tLt(r, sx("-", y)))),
+				tImp(tAnd(tLe(x, "0"), tLt("0", y)), tAnd(tLe(r, "0"), tLt(sx("-", y), r))),
+				tImp(tAnd(tLe(x, "0"), tLt(y, "0")), tAnd(tLe(r, "0"), tLt(y, r)))))
+			return bl(r)
 		case token.LSS:
 			return bl(tLt(x, y))
 		case token.GTR:
